@@ -60,9 +60,46 @@ def tlc_model_check(cfg, workers, timeout):
     return r
 
 
-def tlc_coverage(workers, timeout):
-    r = common.run_tlc("MC_Raft3", cfg="MC_Raft3.cfg", workers=workers, heap="6g", timeout=timeout, args=["-coverage", "1"])
-    return r
+REQUIRED_ACTIONS = ["Campaign", "Propose", "Heartbeat", "Crash.keep", "Crash.lose", "Restart", "Drop", "Dup",
+                    "Deliver.Vote", "Deliver.VoteResp", "Deliver.VoteResp.reject", "Deliver.App", "Deliver.AppResp",
+                    "Deliver.AppResp.reject", "Deliver.HB", "Deliver.HBResp", "Deliver.stale", "BecomeLeader", "CommitAdvance"]
+
+
+def action_histogram(behaviours):
+    """Which spec actions (by branch) the TLC-generated, lockstep-replayed behaviours exercised (DESIGN 4.3)."""
+    h = {}
+
+    def inc(k):
+        h[k] = h.get(k, 0) + 1
+
+    for b in behaviours:
+        if not b.get("lockstep"):
+            continue
+        prev = None
+        for st in b["steps"]:
+            a, s = st["a"], st.get("s")
+            n = a["name"]
+            if n == "Crash":
+                inc("Crash.keep" if a.get("keep") else "Crash.lose")
+            elif n == "Deliver":
+                m = a["m"]
+                stale = prev is not None and m["tm"] < prev["n"][m["to"] - 1]["term"]
+                if stale:
+                    inc("Deliver.stale")
+                else:
+                    inc("Deliver." + m["ty"])
+                    if m["rj"]:
+                        inc("Deliver.%s.reject" % m["ty"])
+            else:
+                inc(n)
+            if prev is not None and s is not None:
+                for x, y in zip(prev["n"], s["n"]):
+                    if y["role"] == "L" and x["role"] != "L":
+                        inc("BecomeLeader")
+                    if y["up"] and x["up"] and y["commit"] > x["commit"]:
+                        inc("CommitAdvance")
+            prev = s
+    return h
 
 
 def tlc_simulate(cfg, num, depth, seed):
@@ -301,9 +338,9 @@ def main():
     mc_workers = 5 if QUICK else 8
     MC_CFG = "MC_Raft3.cfg" if QUICK else "MC_Raft3_full.cfg"
     f_mc = pool.submit(tlc_model_check, MC_CFG, mc_workers, 600 if QUICK else 1100)
-    f_cov = None
+    f_faults = None
     if not QUICK:
-        f_cov = pool.submit(tlc_coverage, 2, 1100)
+        f_faults = pool.submit(tlc_model_check, "MC_Raft3_faults.cfg", 4, 1100)
 
     # ---- 2. TLC-generated behaviours
     sim_jobs = []
@@ -495,21 +532,17 @@ def main():
     r = f_mc.result()
     common.tlc_ok(r, MC_CFG + " exhaustive")
     log("TLC " + MC_CFG + ": %d states generated, %d distinct, depth %d, %.1fs" % (r.generated, r.distinct, r.depth, r.wall))
-    cov_zero = None
-    if f_cov is not None:
-        rc = f_cov.result()
-        if rc.rc == 0 and not rc.timed_out:
-            # action coverage lines: <Action line .. of module EtcdRaft>: distinct:generated
-            cov = re.findall(r"<(\w+) line \d+, col \d+ to line \d+, col \d+ of module EtcdRaft>: (\d+):(\d+)", rc.out)
-            acts = {}
-            for a, d, g in cov:
-                acts[a] = acts.get(a, 0) + int(g)
-            cov_zero = sorted(a for a, g in acts.items() if g == 0)
-            log("coverage: %d actions, never taken: %s" % (len(acts), cov_zero))
-            if cov_zero:
-                common.die_infra("vacuous actions in MC_Raft3: %s" % cov_zero)
-        else:
-            log("coverage run did not finish (rc=%s timeout=%s); not counted" % (rc.rc, rc.timed_out))
+    faults_states = None
+    if f_faults is not None:
+        rf = f_faults.result()
+        common.tlc_ok(rf, "MC_Raft3_faults.cfg exhaustive")
+        faults_states = {"states": rf.distinct, "transitions": rf.generated, "depth": rf.depth}
+        log("TLC MC_Raft3_faults.cfg (crash/restart/drop/dup/heartbeat, one term): %d generated, %d distinct, %.1fs" % (rf.generated, rf.distinct, rf.wall))
+    hist = action_histogram(behaviours)
+    cov_zero = [a for a in REQUIRED_ACTIONS if not hist.get(a)]
+    log("spec actions exercised by replayed TLC behaviours: %s" % json.dumps(hist, sort_keys=True))
+    if cov_zero:
+        common.die_infra("spec actions never taken by the TLC-generated behaviours: %s" % cov_zero)
 
     panics = sum(len(s.get("panics") or []) for s in rnd_stats) + len(rep_stats.get("panics") or [])
     panic_samples = []
@@ -561,7 +594,7 @@ def main():
         "random_runs": nfiles * runs_per, "random_events": ev_stats,
         "panics_in_library": panics,
         "monitor_rejects_corrupted": corr,
-        "coverage_vacuous_actions": cov_zero,
+        "spec_action_histogram": hist, "faults_instance": faults_states,
         "samples": samples,
     }
     assumptions = [
